@@ -99,6 +99,17 @@ def _stays(f, t, succ, polls):
     return hit is not None
 
 
+def _rt_edges(f, fld, protocol_bits):
+    """edges taken when a flag bit outside the pause protocol (the RT bit: the helper polls and never sleeps on its futex) is set - the one test
+    allowed to skip a wake-up"""
+    def isrt(a):
+        if a[0] != "ne" or a[2] != ("c", 0) or a[1][0] != "bin" or a[1][1] != "and" or a[1][3][0] != "c":
+            return False
+        k = a[1][3][1]
+        return k and not (k & protocol_bits) and pat.is_load_expr(a[1][2], fld)
+    return [(t.blk.id, s_) for t, s_, a in pat.branch_edges_on(f, isrt)]
+
+
 def rule_pause(ctx, rep):
     for fl in ALL:
         F = FL[fl]
@@ -113,6 +124,11 @@ def rule_pause(ctx, rep):
             rep.bad("C16.pause", fl + ".before.PAUSE", "before_fork never asks helpers to pause", [b.name])
             continue
         rep.must_pass("C16.pause", fl + ".before.PAUSE≺barrier≺wake", b, orr, wk, lambda i: mm.is_compiler(i, b.mod) and i not in orr or (i in orr and False), what=">=compiler barrier between setting PAUSE and waking the helper") if wk else rep.bad("C16.pause", fl + ".before.wake", "helpers are not woken after PAUSE is set (a sleeping helper never pauses)", [orr[0].where()])
+        if wk:
+            # the wake-up announces the request: it is made after PAUSE is visible.  A helper woken first can re-check its flags, find nothing, and be
+            # back in its futex wait when PAUSE lands - nobody wakes it again and before_fork polls for PAUSED for ever
+            rep.must_pass("C16.pause", fl + ".before.PAUSE⇒wake", b, orr, None, lambda i: i in wk, to_exit=True, edge_ok=pat.block_edge_filter(_rt_edges(b, "call_rcu_data.flags", FLG.PAUSE | FLG.PAUSED)),
+                          what="every PAUSE request is followed by the helper's futex test (wake_up) before before_fork returns")
         waits = [(t, s) for t, s, a in pat.branch_edges_on(b, lambda a: a[0] == "eq" and a[2] == ("c", 0) and a[1][0] == "bin" and a[1][1] == "and" and a[1][3] == ("c", FLG.PAUSED))]
         if not waits:
             rep.bad("C16.pause", fl + ".before.wait-PAUSED", "before_fork does not wait for every helper to acknowledge PAUSED: fork() can happen while a helper holds locks / is registered as reader", [orr[0].where()])
@@ -176,6 +192,21 @@ def rule_pause(ctx, rep):
     PAUSED = [x for x in ors if x != PAUSE]
     pat.require(PAUSED, "workqueue PAUSED bit")
     _helper_pause(rep, w, "workqueue.worker", "urcu_workqueue.flags", PAUSE, PAUSED[0], None, None, wq=True)
+    # requester side (urcu_workqueue_pause_worker, used by the hash table's before-fork hook): set PAUSE, then wake, then wait for PAUSED
+    rep.touch(pw)
+    orr = [e.inst for e in pat.accesses(pw, "urcu_workqueue.flags", ("rmw",)) if e.rop == "or" and ir.const_of(pw, e.val) == PAUSE]
+    wk = pat.loads(pw, "urcu_workqueue.futex")
+    if not wk:
+        wkc = [c for c in pw.all_insts() if c.op == "call" and c.callee and "wake" in c.callee]
+        if wkc:
+            rep.unk("C16.pause", "workqueue.pause_worker.PAUSE⇒wake", "pause_worker wakes the worker through %s, which this rule does not look into" % wkc[0].callee)
+        else:
+            rep.bad("C16.pause", "workqueue.pause_worker.PAUSE⇒wake", "pause_worker never wakes the worker: a worker sleeping on its futex never sees PAUSE", [orr[0].where()])
+    else:
+        rep.must_pass("C16.pause", "workqueue.pause_worker.PAUSE⇒wake", pw, orr, None, lambda i: i in wk, to_exit=True, edge_ok=pat.block_edge_filter(_rt_edges(pw, "urcu_workqueue.flags", PAUSE | PAUSED[0])),
+                      what="the worker's futex is tested (wake_worker_thread) after PAUSE is set: a worker woken before the flag lands goes back to sleep and never acknowledges")
+        rep.must_pass("C16.pause", "workqueue.pause_worker.PAUSE≺FULL≺wake", pw, orr, wk, lambda i: mm.is_full(i), include_start=True,
+                      what="full barrier between setting PAUSE and reading the worker's futex (store→load)")
 
 
 def _helper_pause(rep, h, tag, fld, PAUSE, PAUSED, unreg, reg, bp=False, wq=False):
@@ -293,7 +324,24 @@ def rule_child(ctx, rep, rid="C16.child", callrcu_only=False):
         lv = pat.dom_leaf_atoms(p, x)
         keep = any(a[0] == "ne" and any(z[0] == "call" and z[1] == "pthread_self" for z in (a[1], a[2])) and any(z[0] == "load" and z[1].endswith("urcu_bp_reader.tid") for z in (a[1], a[2])) for a in lv)
         al = any(a[0] == "ne" and a[2] == ("c", 0) and a[1][0] == "load" and a[1][1].endswith("urcu_bp_reader.alloc") for a in lv)
-        rep.check(keep and al, "C16.bp", "prune.keeps-self", "only allocated slots of other threads are cleaned", "prune does not spare the calling thread's slot / cleans unallocated slots", [x.where()])
+        def _peq(a, pol):
+            # pthread_equal(reader->tid, pthread_self()) compared with 0
+            if a[0] != pol or a[2] != ("c", 0) or a[1][0] != "call" or a[1][1] != "pthread_equal":
+                return False
+            ex = [ir.expr(p, v) for v in p.insts[a[1][2]].args[:2]]
+            return any(z[0] == "call" and z[1] == "pthread_self" for z in ex) and any(z[0] == "load" and z[1].endswith("urcu_bp_reader.tid") for z in ex)
+        keep = keep or any(_peq(a, "eq") for a in lv)
+        inv = any(a[0] == "eq" and any(z[0] == "call" and z[1] == "pthread_self" for z in (a[1], a[2])) and any(z[0] == "load" and z[1].endswith("urcu_bp_reader.tid") for z in (a[1], a[2])) for a in lv) \
+            or any(_peq(a, "ne") for a in lv)
+        if inv:
+            rep.bad("C16.bp", "prune.keeps-self", "the fork child cleans up exactly the slot whose tid is its own and keeps every other thread's: its own reader state is released (and handed to the next "
+                    "thread that registers) while it may be inside a critical section, and the stale slots of threads that do not exist in the child stay in the registry", [x.where()])
+        elif keep and al:
+            rep.ok("C16.bp", "prune.keeps-self", "only allocated slots of other threads are cleaned")
+        elif not any(pat.atom_mentions(a, lambda e: e[0] == "call" and e[1] in ("pthread_self", "pthread_equal")) for a in lv) or not al:
+            rep.bad("C16.bp", "prune.keeps-self", "prune does not spare the calling thread's slot / cleans unallocated slots", [x.where()])
+        else:
+            rep.unk("C16.bp", "prune.keeps-self", "the test that spares the caller's slot is not in a form this rule recognises")
     # loop bounds are loop-invariant: the bound field is not written inside the loop (cleanup_thread decrements `used`)
     written = set()
     cf = m.fn("cleanup_thread")
